@@ -105,16 +105,19 @@ fn region(f: &str, a: &[usize]) {
 }
 
 fn table(args: &[String]) {
-    // table <k:v,k:v,…|-> <entries> <gc_epoch> <runtime epoch> <op>…
+    // table <k:v,k:v,…|-> <entries[/tombstones]> <gc_epoch> <runtime epoch> <op>…
     let slots: Vec<(usize, u64)> = if args[0] == "-" { Vec::new() } else {
         args[0].split(',').map(|kv| { let p: Vec<&str> = kv.split(':').collect(); (num(p[0]), num(p[1]) as u64) }).collect()
     };
-    let (entries, epoch, rt_epoch) = (num(&args[1]), num(&args[2]), num(&args[3]));
+    // <entries> or <entries>/<tombstones> (the second only matters for trees whose table counts tombstones)
+    let et: Vec<&str> = args[1].split('/').collect();
+    let (entries, tombstones) = (num(et[0]), if et.len() > 1 { num(et[1]) } else { 0 });
+    let (epoch, rt_epoch) = (num(&args[2]), num(&args[3]));
     let ops: Vec<String> = args[4..].to_vec();
     // probing may not terminate (no EMPTY slot): run on a worker, report hang=1 instead of blocking the caller
     let (tx, rx) = mpsc::channel();
     std::thread::spawn(move || {
-        let r = std::panic::catch_unwind(move || gen::waitlists::gck_table(&slots, entries, epoch, rt_epoch, &ops));
+        let r = std::panic::catch_unwind(move || gen::waitlists::gck_table(&slots, entries, tombstones, epoch, rt_epoch, &ops));
         if let Err(e) = r {
             let msg = if let Some(s) = e.downcast_ref::<String>() { s.clone() } else if let Some(s) = e.downcast_ref::<&str>() { s.to_string() } else { "?".to_string() };
             println!("panic={}", msg.replace('\n', " "));
